@@ -153,3 +153,5 @@ pub fn arm_schedule(seed: u64) {
 pub fn take_events() -> Vec<(u64, u8, u64)> {
     EVENTS.lock().map(|mut e| std::mem::take(&mut *e)).unwrap_or_default()
 }
+
+pub use crate::storage::VerifHashMapResult as HashMapResultAlias;
